@@ -21,3 +21,19 @@ Theorem C08_example :
   end.
 Proof. vm_compute. auto. Qed.
 Print Assumptions C08_example.
+
+(* ---- declarative form and what is proved of it ------------------------------------------------------------ *)
+From TrV Require Import Optimal Proofs.RefSpec.
+Theorem C08_reference_map_correct : forall d s p acc,
+  wf_data_b d = true -> wf_params_b p = true ->
+  NoDup (map fst (reach_map_fwd_ref d s p acc)) /\
+  forall n t, In (n, t) (reach_map_fwd_ref d s p acc) <->
+              (earliest_alight d s p acc n t /\ t - q_time p <= q_maxtt p).
+Proof. exact reach_map_fwd_ref_correct. Qed.
+Print Assumptions C08_reference_map_correct.
+
+(* tie to the source (forwardCalculationAllNodes as it is now) *)
+From TrV Require Import Proofs.GuardsTie.
+Theorem C08_forward_allnodes_step_is_code : forall d p k st c, fwdall_step_code d p k st c = fwd_step d p k true st c.
+Proof. exact fwdall_step_tie. Qed.
+Print Assumptions C08_forward_allnodes_step_is_code.
